@@ -71,11 +71,58 @@ def run(ck: Checker, prog: Program, tier: str):
     from . import c03
     with ck.borrow(c03, "C11.R2+"):
         ck.guard(c03._validation, ck, prog)
+    ck.guard(_members_in_lockstep, ck, prog)
     # what is reported for an azimuthal result on file are the azimuthal object's own mean / std curves
     from . import c12
     with ck.borrow(c12, "C11.R2+"):
         ck.guard(c12._r3, ck, prog, prog.func(c12.W), prog.func(c12.R))
         ck.guard(c12._r5, ck, prog.func(c12.R))     # each azimuth gets its own accept masks back (members kept in file order)
+
+
+def _members_in_lockstep(ck: Checker, prog: Program):
+    """The weights divide by the number of azimuths of the object: that number is the number of members.  The constructor fills
+    `self.hvsrs` and `self.azimuths` pair by pair - one entry each per iteration of the same loop (or both by comprehensions over
+    the same zip) - and no later statement rebinds one of them from a sequence of another length."""
+    from ..pathtable import PathTable
+    init = prog.func("hvsr_azimuthal.HvsrAzimuthal.__init__")
+    q = init.qualname
+    loops = [st for st in init.node.body if isinstance(st, ast.For)]
+    fills = {}
+    for lp in loops:
+        for c in calls_in(lp, "append"):
+            tgt = unparse(c.func.value)
+            if tgt in ("self.hvsrs", "self.azimuths"):
+                fills.setdefault(tgt, []).append((lp, c))
+    rebinds = [st for st in own_nodes(init.node) if isinstance(st, ast.Assign) and any(unparse(t) in ("self.hvsrs", "self.azimuths") for t in st.targets)
+               and not (isinstance(st.value, ast.List) and not st.value.elts)]
+    if set(fills) == {"self.hvsrs", "self.azimuths"} and not rebinds:
+        same_loop = len(fills["self.hvsrs"]) == 1 and len(fills["self.azimuths"]) == 1 and fills["self.hvsrs"][0][0] is fills["self.azimuths"][0][0]
+        lp = fills["self.hvsrs"][0][0]
+        leaves = [l for l in PathTable(prog, init.module, structured=True).leaves(lp.body) if l.exit not in ("raise",)]
+        per_pass = {(sum(1 for e in l.events if e[0] == "call" and e[1] == "self.hvsrs.append"), sum(1 for e in l.events if e[0] == "call" and e[1] == "self.azimuths.append")) for l in leaves}
+        if same_loop and per_pass == {(1, 1)}:
+            ck.ok("C11.R1", q, "one member and one azimuth are appended per pass of the same loop", detail="len(self.azimuths) == len(self.hvsrs)")
+        else:
+            ck.violation("C11.R1", q, "members and azimuths in lock-step", f"members and azimuths are not appended pair by pair (per pass: {sorted(per_pass)}; same loop: {same_loop}): "
+                         f"the azimuth count used for the weights can differ from the number of members", loc=init.loc(lp))
+        return
+    if rebinds:
+        # both built at once from the same zip are fine; anything else is judged unequal in length
+        srcs = {}
+        for st in rebinds:
+            for t in st.targets:
+                if unparse(t) in ("self.hvsrs", "self.azimuths"):
+                    its = [unparse(g.iter) for x in ast.walk(st.value) if isinstance(x, (ast.ListComp, ast.GeneratorExp)) for g in x.generators]
+                    srcs[unparse(t)] = its
+        other = "self.azimuths" if "self.hvsrs" in fills else "self.hvsrs"
+        if set(srcs) == {"self.hvsrs", "self.azimuths"} and srcs["self.hvsrs"] == srcs["self.azimuths"] and srcs["self.hvsrs"]:
+            ck.ok("C11.R1", q, "members and azimuths are built over the same sequence", nontrivial=False)
+            return
+        ck.violation("C11.R1", q, "members and azimuths in lock-step",
+                     f"`{norm_key(rebinds[0], 70)}` builds one of members / azimuths apart from the pairing loop: with inputs of unequal length (zip stops at the shorter) the "
+                     f"azimuth count used for the weights differs from the number of members and the weights no longer sum to one", loc=init.loc(rebinds[0]))
+        return
+    raise AnalysisError(f"{q}: how members and azimuths are collected is not recognised")
 
 
 def _helpers(ck: Checker, prog: Program):
